@@ -79,6 +79,8 @@ def forms(ch, T, kT, U, kU):
     L.append(('deref-assign', '*pa = b;'))
     L.append(('index', 'arr[k & 1];'))
     L.append(('member', 'w.m;'))
+    L.append(('member-of-stmt-expr', '({ w; }).m;'))
+    L.append(('member-of-cond', '(k ? w : w).m;'))
     L.append(('member-assign', 'w.m = a;'))
     L.append(('funcptr-call', 'fp();'))
     L.append(('sizeof', 'q += sizeof(a) * 0;'))
